@@ -752,7 +752,7 @@ class Cluster:
         elif kind == InternalEventHeaders.PUBLICATION:
             self.wire('push_pub', src, dst, body[0])
         else:
-            self.wire('push_not', src, dst, body[0])
+            self.wire('push_not', src, dst, body[0], self.by_identifier.get(source[0], str(source[0])))
 
     def on_rpc(self, src, dst, ns, name, params):
         if name in ('sendRemoteCommEvent',):
@@ -883,9 +883,12 @@ class Cluster:
         self._apply_order(src)
         return True
 
-    @staticmethod
-    def _item_kind(item):
+    def _item_kind(self, item):
         kind, (source, body) = item
+        if kind.name == 'NOTIFICATION':
+            # the instance the notification is about
+            subject = source[0] if isinstance(source, (list, tuple)) else source
+            return f'{kind.name}:{body[0]}:{self.by_identifier.get(subject, str(subject))}'
         return f'{kind.name}:{body[0]}'
 
     def head_kind(self, src, dst):
